@@ -296,7 +296,9 @@ for _k, _v in ROUND4.items():
 # rules added after the fifth round of seeded changes
 ROUND5 = {
     "C01": "Also (R01.11): cached pressure evaluations are handed to solveWall only by the detonation scan (where the upper pressure is proven >= 0), so the convergence guard on "
-           "the runaway verdict cannot be bypassed; (R01.12): boundary data reach every pressure evaluation in the roles they were computed for (shared with C04).",
+           "the runaway verdict cannot be bypassed; (R01.12): boundary data reach every pressure evaluation in the roles they were computed for (shared with C04); "
+           "(R01.13): the convergence flags of solveWall's own evaluation at the top of the window are consulted on every path before the next evaluation overwrites "
+           "them, short-circuit aware (F15, fixed).",
     "C02": "Also (R02.10): the v- returned by matchDeflagOrHyb is the one its junction conditions were solved with (shared with C06).",
     "C05": "Also (R05.9): without a sign change maxAl returns the end of the range at which the residual was tested; (R05.10): each sentinel of findvwLTE is drawn only "
            "after the convergence flag of the matching behind it was consulted (known finding F14 at the lower end).",
